@@ -339,6 +339,14 @@ let cmd_mrg (args : string list) : string =
     (match encode_update_v1 r with
      | Some out -> "ok " ^ hex_of_bytes out ^ " wf=" ^ (if mrg_wf us then "1" else "0") ^ " wfn=" ^ (if mrg_wf_norm us then "1" else "0")
      | None -> "panic encode")
+  (* merge_updates_v2 = decode_v2 each, Update::merge_updates, encode_v2 *)
+  | "merge2" :: hexes ->
+    let decs = List.map (fun hx -> match decode_update_v2 (bytes_of_hex hx) with Ok (u, _) -> Some u | _ -> None) hexes in
+    if List.exists (fun x -> x = None) decs then "err undecodable-argument" else
+    let us = List.filter_map (fun x -> x) decs in
+    (match encode_update_v2 (mrg_merge_updates us) with
+     | Some out -> "ok " ^ hex_of_bytes out ^ " wf=" ^ (if mrg_wf us then "1" else "0")
+     | None -> "panic encode")
   | _ -> "err badcmd"
 
 (* ---------- diff_updates / encode_state_vector_from_update (Crdt/Diff.v) ---------- *)
@@ -351,6 +359,15 @@ let cmd_dff (args : string list) : string =
      | Ok (o, _) -> "ok " ^ hex_of_bytes o ^ hyp
      | Err e -> "err " ^ err_name e | Panic s -> "panic " ^ hex_of_n s | Fuel -> "fuel")
   | ["sv"; u] -> pres print_sv (dff_state_vector_from_update_v1 (bytes_of_hex u))
+  (* the v2 entry points: the same functions between the v2 codecs (Codec/UpdateV2.v, Codec/WireV2.v) *)
+  | ["diff2"; u; sv] ->
+    (match decode_update_v2 (bytes_of_hex u), w2_decode_sv (bytes_of_hex sv) with
+     | Ok (up, _), Ok (v, _) -> (match encode_update_v2 (dff_diff_update up v) with Some o -> "ok " ^ hex_of_bytes o | None -> "panic encode")
+     | _ -> "err undecodable")
+  | ["sv2"; u] ->
+    (match decode_update_v2 (bytes_of_hex u) with
+     | Ok (up, _) -> "ok " ^ print_sv (dff_sv_sort (dff_state_vector up))
+     | _ -> "err undecodable")
   | _ -> "err badcmd"
 
 (* ---------- TransactionMut::apply_delete on block lists (Crdt/ApplyDelete.v) ---------- *)
